@@ -196,9 +196,12 @@ func (ar *ArrayRules) LexicalOrderValidator() ElementValidationFunc {
 func (ar *ArrayRules) LexicalOrderWithoutDupsValidator() ElementValidationFunc {
 	var prev []byte
 	var prevIndex int
+	// an explicit flag, not prev == nil: the encoding of a zero-size element is an empty (possibly nil) slice
+	var hasPrev bool
 
 	return func(index int, next []byte) error {
-		if prev == nil {
+		if !hasPrev {
+			hasPrev = true
 			prevIndex = index
 			prev = next
 
